@@ -114,6 +114,11 @@ pub(super) struct Point {
     pub next_ix: u16,
     /// Index of previous point in contour.
     pub prev_ix: u16,
+    /// Full precision X coordinate in font units. FreeType truncates `fx`
+    /// to 16 bits but computes the scaled coordinates from this value.
+    unscaled_x: i32,
+    /// Full precision Y coordinate in font units.
+    unscaled_y: i32,
 }
 
 impl Point {
@@ -179,8 +184,8 @@ impl Outline {
     pub fn scale(&mut self, scale: &Scale) {
         use super::metrics::fixed_mul;
         for point in &mut self.points {
-            let x = fixed_mul(point.fx, scale.x_scale) + scale.x_delta;
-            let y = fixed_mul(point.fy, scale.y_scale) + scale.y_delta;
+            let x = fixed_mul(point.unscaled_x, scale.x_scale) + scale.x_delta;
+            let y = fixed_mul(point.unscaled_y, scale.y_scale) + scale.y_delta;
             point.ox = x;
             point.x = x;
             point.oy = y;
@@ -423,7 +428,7 @@ impl Outline {
             return;
         }
         fn point_to_i64(point: &Point) -> (i64, i64) {
-            (point.fx as i64, point.fy as i64)
+            (point.unscaled_x as i64, point.unscaled_y as i64)
         }
         let mut area = 0i64;
         for contour in &self.contours {
@@ -512,8 +517,12 @@ impl UnscaledOutlineSink for Outline {
     fn push(&mut self, point: UnscaledPoint) -> Result<(), DrawError> {
         let new_point = Point {
             flags: point.flags,
-            fx: point.x as i32,
-            fy: point.y as i32,
+            // FreeType stores these as FT_Short
+            // See <https://gitlab.freedesktop.org/freetype/freetype/-/blob/57617782464411201ce7bbc93b086c1b4d7d84a5/src/autofit/afhints.c#L987>
+            fx: point.x as i16 as i32,
+            fy: point.y as i16 as i32,
+            unscaled_x: point.x,
+            unscaled_y: point.y,
             ..Default::default()
         };
         let new_point_ix: u16 = self
